@@ -155,6 +155,9 @@ WcOK(e) ==
        /\ D.ix = E.ix /\ D.ip = E.ip /\ D.q = E.q /\ D.lg = E.lg
        /\ D.st \in 0..2 /\ D.lg \in 0..(NLevels - 1)
        /\ NLSFIndexOK(cb, D.ix) /\ D.q = NLSFDecode(cb, D.ix) /\ NlsfClauses(cb, D.q)
+       \* the prediction filters of both half-frames (second half from the quantised NLSFs, first half from the vector
+       \* interpolated with the previous frame's): what the encoder used is what the decoder reconstructs
+       /\ (e.ea.ok = 1 /\ e.da.ok = 1) => e.ea.ip = e.da.ip /\ e.ea.a1 = e.da.a1 /\ e.ea.a0 = e.da.a0
        /\ \A k \in 1..e.n : GainIndexOK(D.gi[k], k > 1) \/ GainIndexOK(D.gi[k], TRUE)
        /\ (D.st = 2) =>
             /\ D.li = E.li /\ D.ci = E.ci /\ D.per = E.per /\ D.ltp = E.ltp /\ D.lsc = E.lsc /\ D.lag = E.lag
